@@ -72,6 +72,24 @@ func (g *gen) witnesses(ps []ReqProof) {
 	}
 }
 
+// respend: the adversarial follow-up of a melt or of a poll — present the melt's inputs again in a swap, whatever
+// state the mint says they are in (refused while locked or spent; accepted, and then consumed, only once released)
+func (g *gen) respend(q *HMeltQ, pct int) {
+	if len(q.Last) == 0 || !g.r.Chance(pct) {
+		return
+	}
+	var ps []ReqProof
+	for _, hp := range q.Last {
+		ps = append(ps, g.genuine(hp))
+	}
+	fee, _ := g.s.feeOf(ps)
+	in := sumReq(ps)
+	if in <= fee || in > 1<<40 {
+		return
+	}
+	g.s.OpSwap(ps, g.outputs(in-fee, g.env.ActiveKeysetId()))
+}
+
 func sumReq(ps []ReqProof) uint64 {
 	var s uint64
 	for _, p := range ps {
@@ -474,7 +492,11 @@ func (g *gen) step() {
 		} else if r.Chance(4) {
 			pk = 2
 		}
+		if r.Chance(15) {
+			env.LN.ExpireNext = true // settled-then-expired invoices must still be honoured
+		}
 		q := s.OpMintQuote(amt, unit, pk, r.Chance(4))
+		env.LN.ExpireNext = false
 		if q != nil && r.Chance(75) {
 			s.Settle(q)
 		}
@@ -486,7 +508,8 @@ func (g *gen) step() {
 				s.Settle(q)
 			case 1:
 				li := env.LN.byHash[q.Hash]
-				if li != nil && li.settled {
+				// (the watcher of a quote stops at the quote's expiry: no notification reaches it afterwards)
+				if li != nil && li.settled && !li.expired {
 					s.Notify(q)
 				}
 			default:
@@ -644,6 +667,7 @@ func (g *gen) step() {
 			ps, _ = g.mutateInputs(ps)
 		}
 		s.OpMeltLn(q, ps, g.script(1+r.Intn(2), true), q.Internal && r.Chance(15))
+		g.respend(q, 35)
 	case w < 86: // melt poll
 		if len(s.meltQs) == 0 {
 			return
@@ -653,6 +677,7 @@ func (g *gen) step() {
 			q = s.meltQs[r.Intn(len(s.meltQs))]
 		}
 		s.OpMeltState(q, g.script(1, false))
+		g.respend(q, 60)
 	case w < 92: // checkstate
 		var qs []YQuery
 		n := 1 + r.Intn(6)
